@@ -337,6 +337,9 @@ contract(
     returns=Ref("C02_Ctx"),
     globals={"super": Val.obj(FuncRef(None, "c02.super_filter")), "Identity": _IDENT},
     requires=[_IDENT_REQ],  # the module constant fontTools.misc.transform.Identity
+    # one path per combination of the five `if`s: every matrix is then a closed polynomial in the options (merged, the six entries are nested
+    # ite-terms over heap reads, which the non-linear solvers handle unreliably and the engine prints slowly)
+    merge_branches=False,
     modifies=["C15_TFilter.context", "C02_Ctx.matrix", "C02_Ctx.font"],
     ensures={
         # the requested affine matrix, as ONE closed form: (x, y) -> (sx*(x + k*(y-h)) + dx,  sy*(y-h) + h + dy)
@@ -465,6 +468,7 @@ contract(
     },
     canaries={"translation-only": f"implies({_has('components[0]')}, " + _first("components[0]", "anchor_data[anchor_name] == ({a}.x + components[0].t_dx, {a}.y + components[0].t_dy)") + ")"},
     locals={"anchors": List(Tuple(Ref("C15_Anchor"), Ref("C15_AComponent")))},
+    merge_branches=False,  # the "found" and "not found" exits of the search loop stay separate paths (smaller terms, ground witnesses)
     # fm: position of the anchor that was found (ghost witness for the ∃ of the postcondition), -1 while nothing was found
     ghost_vars={"fm": (INT, "-1")},
     ghost={"anchors.append((anchor, component))": ["fm = mi"]},
